@@ -275,7 +275,8 @@ BigFilterFiles(seed) ==
                             Block(4, P, TRUE, FALSE, <<FDense(4, 1, <<1, 2, 0>>), FWays(4, 2, 3), FRels(4, 3, 3)>>) >>) >>
 
 Bool3 == {<<a, b, c>> : a \in BOOLEAN, b \in BOOLEAN, c \in BOOLEAN}
-SetSeq(S) == LET F[k \in 0 .. 40] == IF k = 0 THEN << >> ELSE IF k \in S THEN Append(F[k - 1], k) ELSE F[k - 1] IN F[40]
+MaxPos == 200
+SetSeq(S) == LET F[k \in 0 .. MaxPos] == IF k = 0 THEN << >> ELSE IF k \in S THEN Append(F[k - 1], k) ELSE F[k - 1] IN F[MaxPos]
 NamedPreds(n) == { SetSeq(1 .. n), << >>, SetSeq({i \in 1 .. n : i % 2 = 1}), SetSeq({i \in 1 .. n : i % 2 = 0}),
                    <<1>>, <<n>>, SetSeq({i \in 1 .. n : i % 3 = 0}), SetSeq({i \in 1 .. n : i % 3 # 0}) }
 FCase(file, skip, inst, accept, procs) == [file |-> file, skip |-> skip, inst |-> inst, accept |-> accept, procs |-> procs]
@@ -316,5 +317,5 @@ FilterCases(full, seed) ==
   \* unsorted many-block files under every skip combination (nodes after ways / relations must still be delivered)
   \cup {FCase(UnsortedFile(k, seed), sk, i, a, <<1, 2, 3>>)
          : k \in (IF full THEN 1 .. 5 ELSE {1, 3, 4}), sk \in Bool3, i \in {AllInst, <<FALSE, FALSE, FALSE>>},
-           a \in {SetSeq(1 .. 40), SetSeq({j \in 1 .. 40 : j % 2 = 0})}}
+           a \in {SetSeq(1 .. MaxPos), SetSeq({j \in 1 .. MaxPos : j % 2 = 0})}}
 =============================================================================
